@@ -11,6 +11,7 @@ package shell_operator
 // every os.* call of hook.go and inside the (stand-in) process.
 
 import (
+	utils_file "github.com/flant/shell-operator/pkg/utils/file"
 	"context"
 	"encoding/json"
 	"fmt"
@@ -74,7 +75,7 @@ var c12variants = []string{"untouched", "valid", "truncated", "wrong-type"}
 
 var c12seenPaths = map[string]bool{}
 
-func c12run(exit int, variant [4]int, nctx int) (sig, what, outcome string) {
+func c12run(exit int, variant [4]int, nctx int, relTmp bool) (sig, what, outcome string) {
 	base, err := os.MkdirTemp(fxBaseDir(), "zzverif-c12-")
 	if err != nil {
 		panic(err)
@@ -107,7 +108,23 @@ func c12run(exit int, variant [4]int, nctx int) (sig, what, outcome string) {
 	op.KubeClient = vfx.NewMiniCluster()
 	op.ObjectPatcher = objectpatch.NewObjectPatcher(vfx.NewWireClient(op.KubeClient), log.NewNop())
 	op.SetupEventManagers()
-	op.setupHookManagers(filepath.Join(base, "hooks"), tmpDir)
+	// the temporary directory goes through the operator's own preparation step, as in Init();
+	// given as a relative path (--tmp-dir=tmp) it is relative to the operator's working directory,
+	// while hooks run in their own directories
+	tmpArg := tmpDir
+	if relTmp {
+		cwd, _ := os.Getwd()
+		if err := os.Chdir(base); err != nil {
+			panic(err)
+		}
+		defer func() { _ = os.Chdir(cwd) }()
+		tmpArg = "tmp"
+	}
+	ensured, err := utils_file.EnsureTempDirectory(tmpArg)
+	if err != nil {
+		return "C12a init", "temp directory: " + err.Error(), ""
+	}
+	op.setupHookManagers(filepath.Join(base, "hooks"), ensured)
 	if err := op.initHookManager(); err != nil {
 		return "C12a init", err.Error(), ""
 	}
@@ -241,11 +258,15 @@ func TestVerifC12a(t *testing.T) {
 				continue
 			}
 			nctx := int(ord%3) + 1
+			relTmp := ord%5 == 2
 			key := fmt.Sprintf("exit=%d|%v|ctx=%d", exit, variant, nctx)
+			if relTmp {
+				key += "|tmp-dir=relative"
+			}
 			if !r.Want(key) {
 				continue
 			}
-			sig, what, outcome := c12run(exit, variant, nctx)
+			sig, what, outcome := c12run(exit, variant, nctx, relTmp)
 			r.Eval(1)
 			r.Transition(1)
 			if sig != "" {
